@@ -31,7 +31,7 @@ func copyStump(s u.Stump) u.Stump {
 // genLightClient: a client holding only (stump, proof, hashes), updated from block data alone (C07),
 // undone newest-first and updated again (C08).
 func genLightClient(cfg runCfg, e *emitter, rng *rand.Rand, withUndo bool) {
-	nHist := tierN(cfg, 300, 6000)
+	nHist := tierN(cfg, 1000, 12000)
 	for hI := 0; hI < nHist; hI++ {
 		e.line("CASE lc%d", hI)
 		e.line("RESET")
